@@ -42,10 +42,10 @@ Section Dom.
                                               | Some v => [(iname (fd_name fd), v)]
                                               | None => []
                                               end) fields in
-          record_variants 3 canon
+          record_variants 5 canon
             (fun k => if str_eqb k TYPENAME then [VStr (s "Other"); VNull]
                       else match find (fun fd => str_eqb (iname (fd_name fd)) k) fields with
-                           | Some fd => firstn 7 (vals_of (fd_type fd))
+                           | Some fd => firstn 12 (vals_of (fd_type fd))
                            | None => []
                            end) in
         let named_object (n : str) : list val :=
@@ -55,11 +55,14 @@ Section Dom.
           end in
         match ty with
         | NList en et =>
+            (* structured candidates first (callers take a prefix), the generic ones last *)
             let es := vals fuel' et in
-            base_vals ++ map (fun v => VList [v]) (firstn 9 es)
-            ++ match es with a :: b :: c :: _ => [VList [c; a]; VList [c; c; b]] | _ => [] end
+            [VList [VNull]; VList []; VNull]
+            ++ map (fun v => VList [v]) (firstn 6 es)
+            ++ match es with a :: b :: _ => [VList [a; VNull]; VList [b; a]; VList [VUndef]] | _ => [] end
+            ++ base_vals
         | NNamed n =>
-            base_vals ++
+            (fun specific => specific ++ base_vals)
             match get_type doc n with
             | Some (TDScalar _ _ _ dirs _) =>
                 [VStr (s "s"); VBool false]
@@ -73,9 +76,9 @@ Section Dom.
                                                  | Some v => [(iname (iv_name iv), v)]
                                                  | None => []
                                                  end) fields in
-                record_variants 3 canon
+                record_variants 5 canon
                   (fun k => match find (fun iv => str_eqb (iname (iv_name iv)) k) fields with
-                            | Some iv => firstn 7 (vals_of (iv_type iv))
+                            | Some iv => firstn 12 (vals_of (iv_type iv))
                             | None => []
                             end)
             | None => []
